@@ -1293,7 +1293,7 @@ def _hex_to_rgb_or_rgba(color, alpha_float=True):
     return res
 
 
-_ALPHA_COMMONS = {255: 1.0, 128: .5, 64: .25, 32: .125, 16: .625, 0: 0.0}
+_ALPHA_COMMONS = {255: 1.0, 128: .5, 64: .25, 32: .125, 16: .0625, 0: 0.0}
 
 
 def _alpha_value(color, alpha_float):
